@@ -3,6 +3,7 @@
  */
 
 #include <stdlib.h>
+#include <ctype.h>
 #include <string.h>
 #include <limits.h>
 
@@ -31,6 +32,14 @@ MPT_STRUCT(iteratorPolynom)
 	int coeff;
 };
 
+/* remaining text starts shift section */
+static int polyShifts(const char *desc)
+{
+	while (isspace(*desc)) {
+		++desc;
+	}
+	return *desc == ':';
+}
 /* convertable interface */
 static int iterPolyConv(MPT_INTERFACE(convertable) *val, MPT_TYPE(type) type, void *ptr)
 {
@@ -197,7 +206,8 @@ extern MPT_INTERFACE(metatype) *mpt_iterator_poly(const char *desc, const _MPT_A
 			ssize_t len = mpt_cdouble(&coeff[nc].mult, desc, 0);
 			
 			if (len <= 0) {
-				if (!nc) {
+				/* no coefficient or text that is no shift section */
+				if (!nc || (len < 0 && !polyShifts(desc))) {
 					if (buf) {
 						buf->_vptr->unref(buf);
 					}
@@ -217,11 +227,34 @@ extern MPT_INTERFACE(metatype) *mpt_iterator_poly(const char *desc, const _MPT_A
 		while (ns < max) {
 			ssize_t len = mpt_cdouble(&coeff[ns].shift, desc, 0);
 			
-			if (len <= 0) {
+			/* shift value is no number */
+			if (len < 0) {
+				if (buf) {
+					buf->_vptr->unref(buf);
+				}
+				errno = EINVAL;
+				return 0;
+			}
+			if (!len) {
 				break;
 			}
 			desc += len;
 			++ns;
+		}
+		/* surplus shift values are ignored, other text is not */
+		while (1) {
+			ssize_t len = mpt_cdouble(0, desc, 0);
+			if (len < 0) {
+				if (buf) {
+					buf->_vptr->unref(buf);
+				}
+				errno = EINVAL;
+				return 0;
+			}
+			if (!len) {
+				break;
+			}
+			desc += len;
 		}
 	}
 	for ( ; ns < nc; ++ns) {
